@@ -45,7 +45,7 @@ static const char *ex_tokens[] = {
 };
 
 /* long command lines around the 512-byte limit (built at start-up) */
-static char *long_tokens[24];
+static char *long_tokens[40];
 static int n_long;
 
 /* ---- initial configurations ---------------------------------------------------------------------------- */
@@ -156,6 +156,25 @@ static void make_long_tokens(int exmode)
 			char *t = malloc(32);
 			sprintf(t, "%s%s", exmode ? "" : ":", users[i]);
 			long_tokens[n_long++] = t;
+		}
+		/* option and filetype arguments longer than the fields that store them */
+		{
+			static const char *cmdn[] = {"ft ", "cm ", "se "};
+			static const int al[] = {31, 32, 40, 79, 200};
+			int c2, a2;
+			for (c2 = 0; c2 < 3; c2++)
+				for (a2 = 0; a2 < 5 && n_long < 38; a2++) {
+					char *t = malloc(al[a2] + 16);
+					int o = 0;
+					if (!exmode)
+						t[o++] = ':';
+					o += sprintf(t + o, "%s", cmdn[c2]);
+					for (j = 0; j < al[a2]; j++)
+						t[o++] = 'q';
+					t[o++] = '\n';
+					t[o] = '\0';
+					long_tokens[n_long++] = t;
+				}
 		}
 	}
 }
